@@ -122,8 +122,9 @@ def func_text(name, ret_ty, params, e):
 # ---------------------------------------------------------------------------------------------
 # generation of expressions over variables
 
-def gen_expr(rng, depth, params, ops=None, small=False):
-    """random tree over the variables `params` (list of types)"""
+def gen_expr(rng, depth, params, ops=None, small=False, sizeof=False):
+    """random tree over the variables `params` (list of types); `sizeof` leaves only on request (ppci gives them a
+    signed type: open finding)"""
     if depth <= 0 or rng.random() < 0.2:
         r = rng.random()
         if params and r < 0.62:
@@ -131,7 +132,7 @@ def gen_expr(rng, depth, params, ops=None, small=False):
             return ("V", params[i], i)
         if r < 0.68:
             return ("C", rng.choice([0, 1, 10, 39, 48, 65, 92, 97, 126, 127, 128, 200, 255]))
-        if r < 0.74:
+        if sizeof and r < 0.74:
             t, n = rng.choice(SIZEOF_TYPES)
             return ("Z", t, n)
         lit = X.gen_lit(rng, small=small or rng.random() < 0.5)
@@ -140,14 +141,14 @@ def gen_expr(rng, depth, params, ops=None, small=False):
         return lit
     r = rng.random()
     if r < 0.13:
-        return ("U", rng.choice(list(UNOPS)), gen_expr(rng, depth - 1, params, ops, small))
+        return ("U", rng.choice(list(UNOPS)), gen_expr(rng, depth - 1, params, ops, small, sizeof))
     if r < 0.30:
-        return ("K", rng.choice(TYPES), gen_expr(rng, depth - 1, params, ops, small))
+        return ("K", rng.choice(TYPES), gen_expr(rng, depth - 1, params, ops, small, sizeof))
     if r < 0.38:
-        return ("Q", gen_expr(rng, depth - 1, params, ops, small), gen_expr(rng, depth - 1, params, ops, small),
-                gen_expr(rng, depth - 1, params, ops, small))
+        return ("Q", gen_expr(rng, depth - 1, params, ops, small, sizeof), gen_expr(rng, depth - 1, params, ops, small, sizeof),
+                gen_expr(rng, depth - 1, params, ops, small, sizeof))
     op = rng.choice(ops or list(BINOPS))
-    a = gen_expr(rng, depth - 1, params, ops, small)
+    a = gen_expr(rng, depth - 1, params, ops, small, sizeof)
     if op in SHIFT and rng.random() < 0.7:
         b = ("L", "d", rng.choice(["n", "n", "u", "l"]), rng.choice([0, 1, 2, 3, 7, 8, 15, 16, 31]))
     elif op in ("div", "mod") and rng.random() < 0.5:
@@ -157,9 +158,9 @@ def gen_expr(rng, depth, params, ops=None, small=False):
     elif op in ("add", "sub", "mul") and rng.random() < 0.35:
         # keep signed arithmetic in range more often: operate in an unsigned or wide type
         a = ("K", rng.choice(["uint", "ulong", "ullong", "llong", "uchar", "ushort"]), a)
-        b = gen_expr(rng, depth - 1, params, ops, small=True)
+        b = gen_expr(rng, depth - 1, params, ops, True, sizeof)
     else:
-        b = gen_expr(rng, depth - 1, params, ops, small)
+        b = gen_expr(rng, depth - 1, params, ops, small, sizeof)
     return ("B", op, a, b)
 
 
@@ -638,6 +639,227 @@ def gcc_values(cases, sanitize=True, workdir="/tmp"):
         out = []
         for i, (rt, params, e, argvs) in enumerate(cases):
             out.append((types.get(i), ["UB" if (i, k) in ub else vals.get((i, k)) for k in range(len(argvs))]))
+        return out, ""
+    finally:
+        for fn in os.listdir(d):
+            os.unlink(os.path.join(d, fn))
+        os.rmdir(d)
+
+
+# ---------------------------------------------------------------------------------------------
+# statement-level programs (failing-input search only: nothing is proved about them)
+
+class ProgGen:
+    """random C functions with loops, if/else, switch, local arrays, a struct, pointers to locals, calls and a
+    global array.  Undefined behaviour is avoided by construction: arithmetic on unsigned types (or on values
+    masked small before signed use), divisors `| 1`, shift counts `& 15`, indices `% N`, bounded loops."""
+
+    UT = ["unsigned int", "unsigned long", "unsigned char", "unsigned short"]
+
+    def __init__(self, rng):
+        self.rng = rng
+        self.lines = []
+        self.nfun = 0
+
+    def expr(self, vars_, depth):
+        r = self.rng
+        if depth <= 0 or r.random() < 0.25:
+            x = r.random()
+            if vars_ and x < 0.7:
+                return r.choice(vars_)
+            return str(r.choice([0, 1, 2, 3, 5, 7, 10, 100, 255, 256, 65535, 1000003])) + "u"
+        op = r.choice(["+", "-", "*", "&", "|", "^", "/", "%", "<<", ">>", "<", ">", "==", "!=", "?", "!", "~", "c", "&&", "||", "-s"])
+        a = self.expr(vars_, depth - 1)
+        b = self.expr(vars_, depth - 1)
+        if op in ("/", "%"):
+            return f"({a} {op} ({b} | 1u))"
+        if op in ("<<", ">>"):
+            return f"({a} {op} ({b} & 15u))"
+        if op == "?":
+            return f"({a} ? {b} : {self.expr(vars_, depth - 1)})"
+        if op == "!":
+            return f"(!{a})"
+        if op == "~":
+            return f"(~{a})"
+        if op == "c":
+            return f"(({r.choice(['unsigned char', 'unsigned short', 'int', 'unsigned int', 'long', 'signed char', 'short'])}){a})"
+        if op == "-s":
+            # signed comparison of small values
+            return f"(((int)({a} & 1023u) - 512) < ((int)({b} & 1023u) - 512))"
+        return f"({a} {op} {b})"
+
+    def block(self, vars_, depth, ind, loop_ok=True):
+        r = self.rng
+        out = []
+        for _ in range(r.randint(1, 4)):
+            k = r.random()
+            v = r.choice(vars_)
+            if k < 0.30 or depth <= 0:
+                op = r.choice(["=", "+=", "-=", "*=", "^=", "|=", "&=", "="])
+                out.append(f"{ind}{v} {op} {self.expr(vars_, 2)};")
+            elif k < 0.36:
+                out.append(f"{ind}{v}{r.choice(['++', '--'])};")
+            elif k < 0.52:
+                out.append(f"{ind}if ({self.expr(vars_, 2)}) {{")
+                out += self.block(vars_, depth - 1, ind + "  ")
+                if r.random() < 0.6:
+                    out.append(f"{ind}}} else {{")
+                    out += self.block(vars_, depth - 1, ind + "  ")
+                out.append(f"{ind}}}")
+            elif k < 0.64 and loop_ok:
+                n = r.randint(1, 6)
+                c = f"i{len(ind)}"
+                kind = r.random()
+                if kind < 0.5:
+                    out.append(f"{ind}for ({c} = 0; {c} < {n}; {c}++) {{")
+                    out += self.block(vars_ + [c], depth - 1, ind + "  ")
+                    if r.random() < 0.3:
+                        out.append(f"{ind}  if ({self.expr(vars_ + [c], 1)}) {r.choice(['break', 'continue'])};")
+                    out.append(f"{ind}}}")
+                elif kind < 0.8:
+                    out.append(f"{ind}{c} = {n};")
+                    out.append(f"{ind}while ({c} > 0) {{")
+                    out.append(f"{ind}  {c}--;")
+                    out += self.block(vars_ + [c], depth - 1, ind + "  ")
+                    out.append(f"{ind}}}")
+                else:
+                    out.append(f"{ind}{c} = 0;")
+                    out.append(f"{ind}do {{")
+                    out += self.block(vars_ + [c], depth - 1, ind + "  ")
+                    out.append(f"{ind}  {c}++;")
+                    out.append(f"{ind}}} while ({c} < {n});")
+            elif k < 0.74:
+                out.append(f"{ind}switch ({self.expr(vars_, 1)} & 3u) {{")
+                for cs in r.sample([0, 1, 2, 3], r.randint(1, 3)):
+                    out.append(f"{ind}case {cs}:")
+                    out += self.block(vars_, 0, ind + "  ", loop_ok=False)
+                    if r.random() < 0.75:
+                        out.append(f"{ind}  break;")
+                if r.random() < 0.6:
+                    out.append(f"{ind}default:")
+                    out += self.block(vars_, 0, ind + "  ", loop_ok=False)
+                out.append(f"{ind}}}")
+            elif k < 0.82:
+                out.append(f"{ind}arr[{self.expr(vars_, 1)} % 5u] = {self.expr(vars_, 2)};")
+                out.append(f"{ind}{v} ^= arr[{self.expr(vars_, 1)} % 5u];")
+            elif k < 0.88:
+                out.append(f"{ind}st.a = {self.expr(vars_, 1)}; st.b = (unsigned char){self.expr(vars_, 1)}; {v} += st.a + st.b;")
+            elif k < 0.93:
+                out.append(f"{ind}p = &{r.choice([x for x in vars_ if x[0] in 'xyz'])}; *p = *p + {self.expr(vars_, 1)};")
+            elif k < 0.97 and self.nfun > 0:
+                out.append(f"{ind}{v} += h{r.randrange(self.nfun)}({self.expr(vars_, 1)}, {self.expr(vars_, 1)});")
+            else:
+                out.append(f"{ind}g[{self.expr(vars_, 1)} % 4u] += {self.expr(vars_, 1)};")
+        return out
+
+    def helper(self):
+        r = self.rng
+        name = f"h{self.nfun}"
+        body = [f"static unsigned int {name}(unsigned int x, unsigned int y) {{", "  unsigned int z = 1u;",
+                "  unsigned int *p;", "  unsigned int arr[5] = {1u, 2u, 3u, 4u, 5u};",
+                "  struct { unsigned int a; unsigned char b; } st;", "  int i2, i4, i6;", "  st.a = 0; st.b = 0; p = &z; i2 = i4 = i6 = 0;"]
+        body += self.block(["x", "y", "z"], 1, "  ")
+        body.append(f"  return {self.expr(['x', 'y', 'z'], 2)};")
+        body.append("}")
+        self.nfun += 1
+        return body
+
+    def function(self, name):
+        r = self.rng
+        pts = [r.choice(self.UT + ["int", "long", "signed char", "short"]) for _ in range(r.randint(1, 4))]
+        ps = ", ".join(f"{t} a{i}" for i, t in enumerate(pts))
+        body = [f"unsigned long {name}({ps}) {{"]
+        body.append("  unsigned int x = 3u, y = 5u; unsigned long z = 7u;")
+        body.append("  unsigned int *p; unsigned int arr[5] = {1u, 2u, 3u, 4u, 5u};")
+        body.append("  struct { unsigned int a; unsigned char b; } st;")
+        body.append("  int i2, i4, i6;")
+        body.append("  st.a = 0; st.b = 0; p = &x; i2 = i4 = i6 = 0;")
+        for i, t in enumerate(pts):
+            body.append(f"  {r.choice(['x', 'y', 'z'])} += (unsigned int)a{i};")
+        vars_ = ["x", "y", "z"] + [f"a{i}" for i, t in enumerate(pts) if t.startswith("unsigned")]
+        body += self.block(vars_, 2, "  ")
+        body.append(f"  return {self.expr(vars_, 2)} + x + y + z + arr[0] + arr[4] + st.a;")
+        body.append("}")
+        return body, pts
+
+
+PARAM_TAG = {"unsigned int": "uint", "unsigned long": "ulong", "unsigned char": "uchar", "unsigned short": "ushort",
+             "int": "int", "long": "long", "signed char": "schar", "short": "short"}
+
+
+def gen_programs(rng, n):
+    """-> (source text of the functions, [(name, [param types], [arg vectors])])"""
+    g = ProgGen(rng)
+    lines = ["unsigned int g[4];"]
+    for _ in range(3):
+        lines += g.helper()
+    funcs = []
+    for i in range(n):
+        body, pts = g.function(f"f{i}")
+        lines += body
+        funcs.append((f"f{i}", pts))
+    return "\n".join(lines) + "\n", funcs
+
+
+def run_programs_ppci(src, funcs, argvs):
+    """the real front-end + ir_to_python: {name: [(ret, g bytes hex) | error string]}"""
+    from . import irgen, irrun
+    from ppci import ir
+    try:
+        module, cap = compile_capture(src)
+    except Exception as e:  # noqa
+        return {"error": X.classify(e) + ": " + str(getattr(e, "msg", e))[:300]}
+    module.debug_db = None
+    fs = {f.name: f for f in module.functions}
+    entries = {name: irgen.Entry(name, [a.ty for a in fs[name].arguments], fs[name].return_ty, True) for name, _ in funcs}
+    gen = irgen.Generated(module, list(entries.values()), [])
+    try:
+        runner = irrun.Ir2Py(gen)
+    except Exception as e:  # noqa
+        return {"error": f"ir_to_python: {type(e).__name__}: {e}"[:300]}
+    out = {}
+    for name, pts in funcs:
+        rows = []
+        for args in argvs[name]:
+            s = runner.run(entries[name], args)
+            rows.append(s)
+        out[name] = rows
+    return out
+
+
+def run_programs_gcc(src, funcs, argvs, sanitize=True, workdir="/tmp"):
+    """{name: ['ret=<v> g=<hex>' | 'UB']} from gcc"""
+    lines = ["#include <stdio.h>", "#include <string.h>", src]
+    lines.append("static void show(unsigned long r) { const unsigned char *c = (const unsigned char *)g; int i; "
+                 "printf(\"ret=%lu g=\", r); for (i = 0; i < (int)sizeof g; i++) printf(\"%02x\", c[i]); printf(\"\\n\"); }")
+    lines.append("int main(void) {")
+    for name, pts in funcs:
+        for k, args in enumerate(argvs[name]):
+            a = ", ".join(f"({t}){v}{'ull' if v >= 0 else 'll'}" for t, v in zip(pts, args))
+            lines.append(f"  memset(g, 0, sizeof g); fflush(stdout); fprintf(stderr, \"@ {name} {k}\\n\"); printf(\"{name} {k} \"); show({name}({a}));")
+    lines.append("  return 0; }")
+    d = tempfile.mkdtemp(prefix="c01prog", dir=workdir)
+    try:
+        p = os.path.join(d, "t.c")
+        with open(p, "w") as f:
+            f.write("\n".join(lines) + "\n")
+        flags = ["-fsanitize=undefined"] if sanitize else []
+        r = subprocess.run(["gcc", "-std=gnu11", "-w", "-O0", *flags, "-o", os.path.join(d, "t"), p], capture_output=True, text=True)
+        if r.returncode != 0:
+            return None, r.stderr[-1500:]
+        q = subprocess.run([os.path.join(d, "t")], capture_output=True, text=True, timeout=300)
+        ub, cur = set(), None
+        for line in q.stderr.splitlines():
+            if line.startswith("@ "):
+                w = line.split()
+                cur = (w[1], int(w[2]))
+            elif "runtime error" in line and cur is not None:
+                ub.add(cur)
+        out = {name: [None] * len(argvs[name]) for name, _ in funcs}
+        for line in q.stdout.splitlines():
+            w = line.split(" ", 2)
+            if len(w) == 3 and w[0] in out:
+                out[w[0]][int(w[1])] = "UB" if (w[0], int(w[1])) in ub else w[2]
         return out, ""
     finally:
         for fn in os.listdir(d):
